@@ -434,6 +434,18 @@ func c03Mutations(r *kernel.RNG, v, other []byte, exhaustive bool) [][]byte {
 			}
 		}
 	}
+	// 2-byte length fields set to values just below the length of the value (inner lengths count from
+	// different header offsets, so a window of distances is drawn per run)
+	for off := 0; off+2 <= len(v) && off < 64; off++ {
+		for n := 0; n < 6; n++ {
+			k := r.Intn(48)
+			if k < len(v) {
+				m := append([]byte{}, v...)
+				binary.LittleEndian.PutUint16(m[off:], uint16(len(v)-k))
+				add(m)
+			}
+		}
+	}
 	// splices with another valid value at several boundaries
 	for _, cut := range []int{3, 11, 12, 13, 20, 21, 24, 45, 57, 84, 100} {
 		if cut < len(v) && cut < len(other) {
